@@ -56,9 +56,12 @@ pub(crate) fn get_modifiers(modifier: u8) -> Modifiers {
 ///
 /// Optimized to allocate the required amount of capacity beforehand.
 pub(crate) fn read(file: &mut File) -> Vec<u8> {
-    let len = file.metadata().map(|m| m.len() + 1).unwrap();
+    let len = file.metadata().map(|m| m.len() + 1).unwrap_or_default();
     let mut buf = Vec::with_capacity(len as usize);
-    file.read_to_end(&mut buf).unwrap();
+    // A file which can't be read (it may even be a directory) is treated like an empty one.
+    if file.read_to_end(&mut buf).is_err() {
+        buf.clear();
+    }
     buf
 }
 
